@@ -275,6 +275,80 @@ CLAIMS["C05"] = dict(
     technique="Coq corollary of the dense-refinement of shift_common and the aggregate theorem + correspondence over all re-encodings on the real cubes",
     design_ref="DESIGN.md 4/C05")
 
+CLAIMS["C06"] = dict(
+    category="proof",
+    text=("68 theorems of Properties/C06.v over an algorithm-level model of the index operations (IIndex/OpsA.v, OpsB.v, ShiftCommon.v: dict as an "
+          "association list, merges through the C08 specifications, the per-row common counter of collapsed, renumbering in filtered, bucketing in "
+          "slices1d ...): for EVERY operation of the history ADT - shift_common(v) / shift_common(), copy, append, update, union / intersection / "
+          "difference_update, set_if, filtered, reindexed (explicit incl. many-to-one and onto the common; default mapping), collapsed (any non-empty "
+          "precedence list, repeats allowed), sliced, slices1d, column_stack, get / items / to_dict(force), common_rowids - shape and dense content of the "
+          "model's result equal NumPy's on the dense array (C06_*_shape / _dense / _refines), lifted to ALL finite histories by induction over `run` "
+          "(C06_history_refines, C06_history_refines_fold). Tie W2, stepwise simulation on every run: ~1 500 random histories (<= 6 steps quick, <= 12 "
+          "thorough) over real 1-D/2-D/3-D indexes with the full argument space of every operation; before EVERY step the real receiver is "
+          "re-abstracted, `step (abs before) op` is compared inside Coq with the abstracted real outcome at the property level (shape, dense content; "
+          "not entry order or tie-breaks); non-receiver operands are abstracted before/after (unchanged), explicitly requested copies are checked with "
+          "numpy.shares_memory; a model-free NumPy oracle carries the dense array through the history; failing histories are shrunk."),
+    note=("Trusted: Coq kernel + vm_compute; harness abstraction of real indexes; NumPy primitives (fancy indexing, where, unique, sort+dedup) modelled; sliced takes "
+          "one order per higher axis (the property's quantifier); union_update operands that admit a well-formed result; the NumPy side of intersection / "
+          "difference_update, set_if and the default reindexed() is parameterised by the receiver's common value; operands-unchanged and no-shared-storage are "
+          "judged on the real objects by the harness (and C17), they are not theorems of a functional model. The tie is bounded to N <= 8 initial rows, <= 3 columns. "
+          "Closed under the global context."),
+    technique="Coq proofs (one characterising lemma per operation, induction over histories) over an algorithm-level model + in-Coq stepwise simulation of real operation histories",
+    design_ref="DESIGN.md 4/C06")
+
+CLAIMS["C07"] = dict(
+    category="proof",
+    text=("25 theorems of Properties/C07.v: WF (keys distinct, arity = ndim, higher coordinates within shape, row ids strictly increasing in [0, rows) and "
+          "below 2^32, no entry under the common value, no empty entry, exclusivity per column) is preserved by every operation (C07_*_wf, C07_step_wf) and "
+          "by every finite history incl. construction from arrays (C07_history_wf - which also gives totality - and C07_from_array_wf); the boolean wf_b "
+          "reflects WF (C07_wf_b_reflects); consequences C07_wf_abscissae (reported distinct values = values occurring in the dense array), C07_wf_sparsity, "
+          "C07_wf_listed_occurs, C07_wf_infer_extent (no category that occurs nowhere). Tie W2 on every run: the C06 histories; `wf_b (abs after) = true` "
+          "is evaluated inside Coq on the REAL result of every step, the library's own validate(True) plus range / arity / dtype / non-emptiness are checked "
+          "on the real object, every (unsigned) step result additionally goes through a real INDX save -> load -> rebuild, and from_array is run on every "
+          "dense array a history reaches (~11 000 evaluations quick)."),
+    note=("Trusted as C06. INDX load_wf is stated under C10. Closed under the global context."),
+    technique="Coq proof of invariant preservation per operation and by induction over histories + wf_b evaluated inside Coq on real states after every step",
+    design_ref="DESIGN.md 4/C07")
+
+CLAIMS["C15"] = dict(
+    category="proof",
+    text=("18 theorems of Properties/C15.v: after shift_common(), append, filtered, collapsed and from_array without a common the stored common is a most "
+          "frequent value of the dense content (C15_*_common_max, C15_history_common_max; from_array via IIndex/FromArrayCommon.v); for well-formed "
+          "indexes the model of __eq__ returns true IFF shape, common and dense content coincide (C15_eq_spec), the entries then agree up to order "
+          "(C15_canonical), __ne__ is the negation (C15_ne_spec) and == is reflexive, symmetric and transitive (C15_eq_*_wf). Tie W2 on every run: the C06 "
+          "histories; after every library-chosen normalisation the real common is checked to be a most frequent value of the real dense array (ties either "
+          "way); every result is compared with == and != to its directly constructed twin, to perturbed twins (one cell, the common, the shape, row order, an "
+          "extra all-common column), to results of OTHER histories and to non-index operands; == / != of the real objects are compared inside Coq with "
+          "eq_model / ne_model and with 'same shape, common, dense' (~36 000 comparisons quick)."),
+    note=("Trusted as C06; the from_array theorem needs no caller-supplied counts; comparison with a non-index is checked by the harness only; tie-breaks are free. "
+          "Closed under the global context."),
+    technique="Coq proof (counting lemma for the automatic common, canonical-form theorem for equality) + in-Coq correspondence of ==/!= and of the chosen common on real histories",
+    design_ref="DESIGN.md 4/C15")
+
+CLAIMS["C17"] = dict(
+    category="proof",
+    text=("Theorems of Properties/C17.v: C17_analysis_sound / C17_pure_sound (an origin analysis over an effect IR - Alias, Fresh, Load, Store, Mutate, If, "
+          "Loop, Call - is sound for a nondeterministic heap semantics with per-object version counters: if the checker `pure` accepts a program, then in "
+          "EVERY execution from any heap covered by the entry abstraction no object reachable from the protected parameters changes, and - for ret_fresh "
+          "programs - the result reaches no protected object), C17_effects (`pure` = true, by vm_compute, for each of the ~130 IR programs that "
+          "harness/translate_effects.py REGENERATES from the working tree on every run: every aggregate's __init__ / get_initial_regions / fill / reduce of "
+          "both cube types, the cube constructors and helpers, all non-mutating index methods; in-scope callees inlined; tie W1) and C17_effects_sound "
+          "(the corollary for each), C17_calculate_independent / C17_calculate_reorder (model level: each function owns its regions, so calculate(list) = "
+          "per-function results in any order and on repetition). Removing a .copy(), asarray-then-fill, sorting shared row ids in place, a cached region on "
+          "self, a mutable default argument or mutating the caller's mapping / precedence list makes C17_effects fail to compile. Tie W2 / search on every "
+          "run: byte-for-byte comparison of every argument (arrays, values hidden under a False validity, dimension arrays, index entries, mappings, "
+          "precedence lists) before and after every call on the C03/C18/C06 generators, permutations and repetitions of aggregate lists, re-use of function "
+          "objects on the same and on other cubes, and a tracer validating the table's Fresh/copy claims with numpy.shares_memory."),
+    note=("Trusted: Coq kernel + vm_compute; the translator (fail-closed: unknown call = most general client of its arguments, unsupported construct = rejected "
+          "program) and harness/effects_table.py, the classification of NumPy / builtin calls as view / fresh / in place (validated at run time, not proved); the "
+          "entry-heap hypothesis (writable arguments - result regions, a constructor's self - do not alias protected ones). RUN-TIME ONLY (the IR is too "
+          "imprecise, listed in effects_table.RUNTIME_ONLY): ccube._walk/walk/interactions, ccube/xcube.calculate and the 14 shortcut methods; ret_fresh could not be "
+          "shown for iindex copy/filtered/collapsed/reindexed/column_stack (their 'arguments untouched' half is proved, 'result shares no memory' is the run-time "
+          "check). A harmless rewrite that uses an unclassified call breaks C17_effects and is reported as no-failing-input-found until the table is extended "
+          "(happened once: dict.fromkeys in the F23 repair). Closed under the global context."),
+    technique="abstract interpretation (origin analysis) proved sound in Coq + programs regenerated from source by a fail-closed ast translator and checked by vm_compute + model-free byte-comparison oracle at run time",
+    design_ref="DESIGN.md 4/C17")
+
 NOT_YET = "check not built yet in this revision (planned: see DESIGN.md section 4)"
 
 
